@@ -1,6 +1,7 @@
 package coalesce
 
 import (
+	"encoding/json"
 	"fmt"
 	"os"
 	"os/user"
@@ -617,4 +618,81 @@ func TestC15TableIsolation(t *testing.T) {
 		}
 	}
 	hC15.Class("table-isolation-sweep")
+}
+
+// TestC15FirstSight: things seen for the first time, by many goroutines at once. Each goroutine coalesces single
+// records and small groups of record types, syscall numbers, architectures and ids that nobody in this process
+// has seen before (its own range of each), so that whatever the library learns or caches on first sight it
+// learns under concurrency. Afterwards the same inputs are coalesced again sequentially: equal results. Run
+// plain and under the race detector; a fatal "concurrent map" error takes the process down and is reported from
+// the crash file.
+func TestC15FirstSight(t *testing.T) {
+	rounds := hx.EnvInt("VERIF_N", 40)
+	const G = 8
+	for r := 0; r < rounds; r++ {
+		c := C09Case{}
+		hC15.BeginLimit("TestC15", c, 120*time.Second)
+		type in struct {
+			typ  uint16
+			body string
+			sys  string
+		}
+		inputs := make([][]in, G)
+		for g := 0; g < G; g++ {
+			for i := 0; i < 25; i++ {
+				n := r*G*25 + g*25 + i
+				typ := uint16(2500 + n%60000)                                                        // a record type without a name, a new one each time
+				id := 100000 + n                                                                     // a uid/gid nobody resolved before
+				sysno, arch := 3000+n, []string{"c000003e", "40000003", "c00000b7", "deadbeef"}[n%4] // numbers without a name
+				inputs[g] = append(inputs[g], in{typ, fmt.Sprintf("pid=%d uid=%d auid=%d ses=%d msg='op=x%d acct=\"a%d\" res=success'", n, id, id+1, n, n, n),
+					fmt.Sprintf("arch=%s syscall=%d success=yes exit=0 a0=0 a1=0 a2=0 a3=0 items=0 ppid=1 pid=%d auid=%d uid=%d gid=%d euid=%d suid=%d fsuid=%d egid=%d sgid=%d fsgid=%d tty=pts1 ses=%d comm=\"c%d\" exe=\"/x%d\" key=(null)", arch, sysno, n, id, id, id+2, id, id, id, id+2, id+2, id+2, n, n, n)})
+			}
+		}
+		run := func(x in) (string, string) {
+			var out [2]string
+			for k, msgs := range [][2]string{{fmt.Sprint(x.typ), x.body}, {"1300", x.sys}} {
+				var typ uint16
+				fmt.Sscan(msgs[0], &typ)
+				m, err := auparse.Parse(auparse.AuditMessageType(typ), "audit(1700000000.000:"+fmt.Sprint(100+k)+"): "+msgs[1])
+				if err != nil {
+					out[k] = "parse error " + err.Error()
+					continue
+				}
+				ev, err := aucoalesce.CoalesceMessages([]*auparse.AuditMessage{m})
+				if ev != nil {
+					aucoalesce.ResolveIDs(ev)
+				}
+				b, _ := json.Marshal(ev)
+				out[k] = fmt.Sprintf("%s %v %v | %s", b, err, m.RecordType.String(), fmt.Sprint(m.ToMapStr()))
+			}
+			return out[0], out[1]
+		}
+		got := make([][][2]string, G)
+		var wg sync.WaitGroup
+		start := make(chan struct{})
+		for g := 0; g < G; g++ {
+			wg.Add(1)
+			go func(g int) {
+				defer wg.Done()
+				<-start
+				for _, x := range inputs[g] {
+					a, b := run(x)
+					got[g] = append(got[g], [2]string{a, b})
+				}
+			}(g)
+		}
+		close(start)
+		wg.Wait()
+		hC15.End()
+		for g := 0; g < G; g++ {
+			for i, x := range inputs[g] {
+				hC15.Eval()
+				a, b := run(x)
+				if a != got[g][i][0] || b != got[g][i][1] {
+					hC15.Fail(t, "TestC15", c, "a record of type %d (and a SYSCALL record with numbers nobody had seen) coalesced for the first time while 7 other goroutines did the same gives\n  %s\n  %s\nand sequentially afterwards\n  %s\n  %s", x.typ, got[g][i][0], got[g][i][1], a, b)
+				}
+			}
+		}
+		hC15.Class("first-sight-round")
+	}
 }
